@@ -135,8 +135,8 @@ def run(prog):
                         "the residual hash consults the tables %s: the clauses satisfied by a new literal (its own polarity) "
                         "and the clauses it shrinks (opposite polarity) are both needed, one pass over each" % sides))
     out += wp3(prog)
-    if n < 20:
-        raise CheckerError("WP: only %d polar table accesses recognised (expected >= 20)" % n)
+    if n < 14:
+        raise CheckerError("WP: only %d polar table accesses recognised (expected >= 14)" % n)
     return out
 
 
